@@ -225,7 +225,7 @@ def generate(rng, tier, i):
             if kind == "flip":
                 mods[f"H{k}"]["flip"] = True
     if sum(1 for m in mods.values() if "fixed" not in m) < 1:
-        mods["S99"] = {"area": float(f"{min(budget, float(step * step) / 4):.6g}"), "center": [geo.fl(xs[0] + step / 2), geo.fl(ys[0] + step / 2)]}
+        mods["S99"] = {"area": float(f"{max(min(budget, float(step * step) / 4), float(step * step) / 100):.6g}"), "center": [geo.fl(xs[0] + step / 2), geo.fl(ys[0] + step / 2)]}
     names = list(mods)
     nets = []
     for _ in range(rng.randint(1, 5)):
